@@ -6,6 +6,7 @@
     SPECFAIL  the implementation's messages are not ones the reference allows
 -/
 import Aquatic.Spec.RefWs
+import Aquatic.Model.WsShards
 import Driver.Util
 
 open Aquatic Aquatic.Ws Drv
@@ -22,11 +23,21 @@ structure St where
   sends are not visible -/
   net : Bool := false
   afterBurst : Bool := false
+  /-- the same history on the model with `nw` swarm workers (`Model/WsShards`; 1 for the in-process store) -/
+  nw : Nat := 1
+  h4 : ShSys := ⟨[[]], []⟩
+  h6 : ShSys := ⟨[[]], []⟩
 
 def St.sys (s : St) (fam : String) : Sys := if fam = "4" then s.s4 else s.s6
 def St.ref (s : St) (fam : String) : RefSys := if fam = "4" then s.r4 else s.r6
 def St.set (s : St) (fam : String) (a : Sys) (b : RefSys) : St :=
   if fam = "4" then { s with s4 := a, r4 := b } else { s with s6 := a, r6 := b }
+
+def St.sh (s : St) (fam : String) : ShSys := if fam = "4" then s.h4 else s.h6
+def St.setSh (s : St) (fam : String) (a : ShSys) : St := if fam = "4" then { s with h4 := a } else { s with h6 := a }
+def St.withWorkers (s : St) (n : Nat) : St :=
+  let n := if n = 0 then 1 else n
+  { s with nw := n, h4 := ⟨List.replicate n [], []⟩, h6 := ⟨List.replicate n [], []⟩ }
 
 def connText (c : ConnId) : String := s!"{c.consumer}.{c.slot}"
 
@@ -226,16 +237,95 @@ def stepCln (s : St) (a : List String) : St × Verdict × List String :=
     | _, _ => ({ s with r4 := r4, r6 := r6 }, .mismatch "model=panic", notes)
   | _ => (s, .bad "wcln arity", [])
 
+/-! ### the same operations on the `n`-worker model: its messages must be the implementation's as well -/
+
+def combine (r : St × Verdict × List String) (sh : St → St × Option String) : St × Verdict × List String :=
+  let (s1, v, notes) := r
+  let (s2, bad) := sh s1
+  match v, bad with
+  | .ok, some t => (s2, .mismatch s!"model with {s2.nw} swarm workers: {t}", notes)
+  | _, _ => (s2, v, notes)
+
+def shadowAnn (s0 : St) (a : List String) (out : List String) (s : St) : St × Option String :=
+  match a with
+  | [fam, consumer, slot, allowed, now, hash, pid, event, left, offers, answer] =>
+    let conn : ConnId := ⟨nat! consumer, nat! slot⟩
+    let req : AnnReq := {
+      hash := hexNat hash, pid := hexNat pid, stopped := event = "stopped",
+      left := if left = "-" then none else some (nat! left),
+      offers := if offers = "-" then none else if offers = "~" then some [] else
+        some ((sepList "," offers).map (fun x => match x.splitOn ":" with | [o, t] => (hexNat o, nat! t) | _ => (0, 0))),
+      answer := if answer = "-" then none else
+        match answer.splitOn ":" with | [p, o, t] => some (hexNat p, hexNat o, nat! t) | _ => none }
+    let impl := if out.isEmpty then "-" else String.intercalate " " out
+    let sh := s0.sh fam
+    let m := (sh.ms[route s0.nw req.hash]?).getD []
+    let tor := (IMap.get m req.hash).getD {}
+    let lenAfter := match insertOrUpdate tor conn req.pid (wsStatus req.stopped req.left) 0 with
+      | .ok t => t.peers.length | .error _ => 0
+    let n := min (req.offers.getD []).length s0.cfg.maxOffers
+    let pairs := if req.offers.isSome then offsetPairs lenAfter n else [(0, 0)]
+    let results : List (Except Panic (ShSys × List Msg)) :=
+      pairs.map (fun (o1, o2) => shStep s0.cfg s0.nw sh (.ann conn (allowed = "1") req (nat! now) o1 o2))
+    let hit := results.find? (fun x => match x with | .ok (_, msgs) => msgsTextN s0.net msgs = impl | .error _ => false)
+    match hit, results.head? with
+    | some (.ok (sh', _)), _ => (s.setSh fam sh', none)
+    | _, some (.ok (sh', msgs)) => (s.setSh fam sh', some s!"{msgsTextN s0.net msgs} (for the first of {pairs.length} draws)")
+    | _, some (.error p) => (s, some s!"panic:{repr p}")
+    | _, none => (s, none)
+  | _ => (s, none)
+
+def shadowScr (s0 : St) (a : List String) (out : List String) (s : St) : St × Option String :=
+  match a with
+  | [fam, consumer, slot, hs] =>
+    if s0.afterBurst then (s, none) else
+    let conn : ConnId := ⟨nat! consumer, nat! slot⟩
+    let impl := if out.isEmpty then "-" else String.intercalate " " out
+    match shStep s0.cfg s0.nw (s0.sh fam) (.scr conn (hexNatList "," hs)) with
+    | .ok (_, msgs) => if msgsText msgs = impl then (s, none) else (s, some (msgsText msgs))
+    | .error p => (s, some s!"panic:{repr p}")
+  | _ => (s, none)
+
+def shadowClose (s0 : St) (a : List String) (s : St) : St × Option String :=
+  match a with
+  | [fam, consumer, slot] =>
+    match shStep s0.cfg s0.nw (s0.sh fam) (.close ⟨nat! consumer, nat! slot⟩) with
+    | .ok (sh', _) => (s.setSh fam sh', none)
+    | .error p => (s, some s!"panic:{repr p}")
+  | _ => (s, none)
+
+def shadowCln (s0 : St) (a : List String) (s : St) : St × Option String :=
+  match a with
+  | [now, mode, list] =>
+    let allowed := allowedFn mode (hexNatList "," list)
+    let go (sh : ShSys) : Except Panic ShSys :=
+      (List.range s0.nw).foldl (fun acc i => match acc with
+        | .ok x => (shStep s0.cfg s0.nw x (.clean i (nat! now) allowed)).map (·.1)
+        | .error e => .error e) (.ok sh)
+    match go s0.h4, go s0.h6 with
+    | .ok a4, .ok a6 => ({ s with h4 := a4, h6 := a6 }, none)
+    | _, _ => (s, some "panic")
+  | _ => (s, none)
+
+def shadowBurst (s0 : St) (fam : String) (conn : ConnId) (hs : List Nat) (pid : Nat) (s : St) : St × Option String :=
+  let go (acc : ShSys) (h : Nat) : ShSys :=
+    match shStep s0.cfg s0.nw acc (.ann conn true ⟨h, pid, false, some 5, none, none⟩ 0 0 0) with | .ok (x, _) => x | .error _ => acc
+  let sh1 := hs.foldl go (s0.sh fam)
+  let sh2 := match shStep s0.cfg s0.nw sh1 (.close conn) with | .ok (x, _) => x | .error _ => sh1
+  (s.setSh fam sh2, none)
+
 def step (s : St) (ts : List String) : St × Verdict × List String :=
   let (a, out) := splitArrow ts
   match a with
-  | ["cfg", "ws", mo, ms, pa, oa] => ({ s with cfg := ⟨nat! mo, nat! ms, nat! pa, nat! oa⟩, net := false }, .skip, ["history"])
+  | ["cfg", "ws", mo, ms, pa, oa] => (({ s with cfg := ⟨nat! mo, nat! ms, nat! pa, nat! oa⟩, net := false } : St).withWorkers 1, .skip, ["history"])
   | ["cfg", "wsnet", mo, ms] => ({ s with cfg := ⟨nat! mo, nat! ms, 180, 120⟩, net := true }, .skip, ["history"])
   | "net" :: rest =>
     if rest.any (fun t => t.startsWith "START-FAILED" ∨ t.startsWith "TRACKER-EXITED") then
       (s, .specfail s!"tracker process: {rest}", ["net-problem"])
-    else (s, .skip, rest.filter (fun t => t.startsWith "socket_workers" ∨ t.startsWith "swarm_workers" ∨ t = "burst=true"))
-  | ["new"] => ({ cfg := s.cfg, net := s.net }, .skip, [])
+    else
+      let nw := match rest.find? (·.startsWith "swarm_workers=") with | some t => nat! ((t.splitOn "=").getD 1 "1") | none => 1
+      (s.withWorkers nw, .skip, rest.filter (fun t => t.startsWith "socket_workers" ∨ t.startsWith "swarm_workers" ∨ t = "burst=true"))
+  | ["new"] => (({ cfg := s.cfg, net := s.net } : St).withWorkers s.nw, .skip, [])
   | ["wbad", _fam, consumer, slot, _hex] =>
     -- an unparseable message: exactly one error reply, to the sender, nothing else happens
     let want := s!"E:{consumer}.{slot}:-"
@@ -251,11 +341,11 @@ def step (s : St) (ts : List String) : St × Verdict × List String :=
     let (sys1, ref1) := (hexNatList "," hs).foldl go (s.sys fam, s.ref fam)
     let sys2 := match sysStep s.cfg sys1 (.close conn) with | .ok (x, _) => x | .error _ => sys1
     let ref2 := (refStep s.cfg ref1 [] (.close conn)).1
-    ({ s.set fam sys2 ref2 with afterBurst := true }, .ok, ["wburst"])
-  | "wann" :: rest => stepAnn s rest out
-  | "wscr" :: rest => stepScr s rest out
-  | "wclose" :: rest => stepClose s rest out
-  | "wcln" :: rest => stepCln s rest
+    combine ({ s.set fam sys2 ref2 with afterBurst := true }, .ok, ["wburst"]) (shadowBurst s fam conn (hexNatList "," hs) (hexNat pidS))
+  | "wann" :: rest => combine (stepAnn s rest out) (shadowAnn s rest out)
+  | "wscr" :: rest => combine (stepScr s rest out) (shadowScr s rest out)
+  | "wclose" :: rest => combine (stepClose s rest out) (shadowClose s rest)
+  | "wcln" :: rest => combine (stepCln s rest) (shadowCln s rest)
   | _ => (s, .bad "unknown op", [])
 
 def main : IO Unit := do
